@@ -489,6 +489,27 @@ func (c *Ctx) ruleC19() {
 									refuses = true
 								}
 							}
+							// the lookup may be the body of a membership predicate (isBanned(k)): then every call of the
+							// predicate has to be the condition of a refusal
+							if _, isPred := c.banPredicates(ban)[f.Obj]; isPred && !refuses {
+								sites, closed := c.callersOf(f)
+								all := closed && len(sites) > 0
+								for _, cs := range sites {
+									hit := false
+									for _, bl := range c.banLookups(cs.g, ban) {
+										if bl.ifs.Init == nil && ast.Unparen(bl.ifs.Cond) == ast.Expr(cs.call) {
+											hit = true
+										}
+									}
+									if !hit {
+										all = false
+									}
+								}
+								if all {
+									r.Ok("C19-BAN-READ-ONLY", key+" (lookup)", fmt.Sprintf("membership predicate; each of its %d calls is the condition of a refusal", len(sites)), where)
+									return true
+								}
+							}
 							if refuses {
 								r.Ok("C19-BAN-READ-ONLY", key+" (lookup)", "comma-ok lookup whose hit returns an error", where)
 							} else {
